@@ -75,8 +75,20 @@ type Sim struct {
 	kick      bool // next GetBlockHeight answer is the kick-off height of AddWaitForConfirmationTx
 	kickH     int
 
+	gate *cbGate // RPC watcher: the csv callback of the current step is held until the driver releases it
+
+	lastTxOut int // depth answered by the last GetTxOut of this step (-1: nil or error)
+
 	out []line
 	hdr chan *goelectrum.SubscribeHeadersResult
+}
+
+// cbGate makes the csv callback of the RPC watcher a deterministic step:
+// AddWaitForCsvTx runs it on a goroutine of its own, HandleCsvTx after
+// releasing the lock. The callback announces itself, the driver applies what
+// the schedule puts between the observation and the callback, then lets it go.
+type cbGate struct {
+	arrived, release, finished chan struct{}
 }
 
 func NewSim(t, base int) *Sim {
@@ -191,6 +203,21 @@ func (s *Sim) Begin(st *Step) {
 	s.staleUsed = false
 	s.kick = false
 	s.kickH = 0
+	s.lastTxOut = -1
+	s.mu.Unlock()
+}
+
+func (s *Sim) openGate() *cbGate {
+	g := &cbGate{arrived: make(chan struct{}, 8), release: make(chan struct{}, 8), finished: make(chan struct{}, 8)}
+	s.mu.Lock()
+	s.gate = g
+	s.mu.Unlock()
+	return g
+}
+
+func (s *Sim) closeGate() {
+	s.mu.Lock()
+	s.gate = nil
 	s.mu.Unlock()
 }
 
@@ -286,6 +313,7 @@ func (r rpcNode) GetTxOut(txid string, vout uint32) (*txwatcher.TxOutResp, error
 	if txid != TxID || vout != TxVout || !s.bcast || s.spent {
 		return nil, nil
 	}
+	s.lastTxOut = depth(v)
 	return &txwatcher.TxOutResp{BestBlockHash: hashOf(v[len(v)-1].ID), Confirmations: uint32(depth(v)), Value: 0.01}, nil
 }
 
@@ -386,4 +414,14 @@ func (s *Sim) ConfCb(swapId, txHex string, err error) error {
 	return s.report(regOf(swapId), res)
 }
 
-func (s *Sim) CsvCb(swapId string) error { return s.report(regOf(swapId), "csv") }
+func (s *Sim) CsvCb(swapId string) error {
+	s.mu.Lock()
+	g := s.gate
+	s.mu.Unlock()
+	if g != nil {
+		g.arrived <- struct{}{}
+		<-g.release
+		defer func() { g.finished <- struct{}{} }()
+	}
+	return s.report(regOf(swapId), "csv")
+}
